@@ -115,7 +115,14 @@ func sendOrder(e *Env) {
 	// the dial timeout is a knob that must not matter to an established
 	// connection, however long the server stalls
 	timeout := []time.Duration{0, 0, 2 * time.Second, 10 * time.Second, 30 * time.Second}[g.Intn(5)]
-	s := startSession(e, g.Knobs(ClientOpts{Nick: "me", Flood: true, PingFreq: ping, Track: g.Pct(30), Timeout: timeout}), func(l *simnet.Link) {
+	// some senders use Privmsg with texts longer than SplitLen: the pieces of one
+	// call and the sender's next line must keep their order too
+	anySplit := g.Pct(35)
+	splitLen := 0
+	if anySplit {
+		splitLen = []int{30, 40, 60}[g.Intn(3)]
+	}
+	s := startSession(e, g.Knobs(ClientOpts{Nick: "me", Flood: true, PingFreq: ping, Track: g.Pct(30), Timeout: timeout, SplitLen: splitLen}), func(l *simnet.Link) {
 		l.ChunkMode = g.Intn(4)
 		l.Window = []int{0, 0, 40, 200, 2000}[g.Intn(5)]
 	})
@@ -143,13 +150,14 @@ func sendOrder(e *Env) {
 		long    bool
 		issued  []string
 		payload []string
+		split   bool // alternates long Privmsg calls (split into pieces) with short Raw lines, to its own target
 		done    bool
 		started bool
 	}
 	var senders []*sender
 	total := 0
 	for i := 0; i < nSenders; i++ {
-		sd := &sender{id: i, kind: g.W(3, 2, 2), long: g.Pct(15)}
+		sd := &sender{id: i, kind: g.W(3, 2, 2), long: g.Pct(15), split: anySplit && g.Pct(50)}
 		sd.n = []int{1, 2, 5, 20, 40, 70, 200}[g.Intn(7)]
 		// "byte for byte": arbitrary bytes and arbitrary runes other than CR/LF
 		if g.Pct(40) {
@@ -159,12 +167,19 @@ func sendOrder(e *Env) {
 			e.S.Count("probe.binary-or-unicode-payload")
 		}
 		senders = append(senders, sd)
-		total += sd.n
+		if !sd.split {
+			total += sd.n
+		}
 	}
 	e.Notef("senders=%d lines=%d drain=%s ping=%v window/chunk per link plan", nSenders, total, []string{"fast", "slow", "bursts", "late start"}[drain], ping)
 	issue := func(sd *sender) {
 		sd.started = true
-		for k := 0; k < sd.n; k++ {
+		for k := 0; k < sd.n && sd.split; k++ {
+			words := strings.Repeat("w ", 20+e.S.Choose(80))
+			s.c.Privmsg(fmt.Sprintf("#m%d", sd.id), fmt.Sprintf("B%d %sE%d", k, words, k))
+			s.c.Raw(fmt.Sprintf("PRIVMSG #m%d :r%d", sd.id, k))
+		}
+		for k := 0; k < sd.n && !sd.split; k++ {
 			var line string
 			if sd.long && k%3 == 0 {
 				line = fmt.Sprintf("PRIVMSG #c :s%d.%d %s", sd.id, k, strings.Repeat("x", 300+k))
@@ -266,7 +281,26 @@ func sendOrder(e *Env) {
 		}
 		return n
 	}
-	if !simrt.BlockFor("send.main", "all lines to arrive", bound, func() bool { return got() >= total }) {
+	splitDone := func() bool {
+		for _, sd := range senders {
+			if !sd.split || sd.n == 0 {
+				continue
+			}
+			last := fmt.Sprintf("PRIVMSG #m%d :r%d", sd.id, sd.n-1)
+			found := false
+			for _, ln := range s.lines {
+				if ln == last {
+					found = true
+					break
+				}
+			}
+			if !found {
+				return false
+			}
+		}
+		return true
+	}
+	if !simrt.BlockFor("send.main", "all lines to arrive", bound, func() bool { return got() >= total && splitDone() }) {
 		simrt.Settle(time.Minute)
 	}
 	simrt.Settle(30 * time.Second)
@@ -284,6 +318,50 @@ func sendOrder(e *Env) {
 		per[id] = append(per[id], ln)
 	}
 	for _, sd := range senders {
+		if !sd.split {
+			continue
+		}
+		// the pieces of call k (from the one carrying "B<k> " to the one ending in
+		// "E<k>") come before the sender's next line r<k>, which comes before
+		// the pieces of call k+1: each of these events once, in this order
+		prefix := fmt.Sprintf("PRIVMSG #m%d :", sd.id)
+		var events []int // 3k: first piece, 3k+1: last piece, 3k+2: r<k>
+		for _, ln := range s.lines {
+			if !strings.HasPrefix(ln, prefix) {
+				continue
+			}
+			text := strings.TrimPrefix(ln, prefix)
+			var k int
+			if _, err := fmt.Sscanf(text, "r%d", &k); err == nil && text == fmt.Sprintf("r%d", k) {
+				events = append(events, 3*k+2)
+				continue
+			}
+			if _, err := fmt.Sscanf(text, "B%d ", &k); err == nil {
+				events = append(events, 3*k)
+			}
+			if i := strings.LastIndex(text, "E"); i >= 0 {
+				if _, err := fmt.Sscanf(text[i:], "E%d", &k); err == nil && strings.HasSuffix(text, fmt.Sprintf("E%d", k)) {
+					events = append(events, 3*k+1)
+				}
+			}
+		}
+		e.Check()
+		for i, ev := range events {
+			if ev != i {
+				e.Violation("order", "sender %d (Privmsg split into pieces, then a short line, %d times): on the wire event %d is %s, expected %s (a piece or line of this one goroutine overtook another, or one is missing or doubled)",
+					sd.id, sd.n, i, splitEventName(ev), splitEventName(i))
+				return
+			}
+		}
+		if len(events) != 3*sd.n {
+			e.Violation("exactly-once", "sender %d issued %d split messages each followed by a short line; %d of the %d expected first-piece/last-piece/line events reached the wire", sd.id, sd.n, len(events), 3*sd.n)
+			return
+		}
+	}
+	for _, sd := range senders {
+		if sd.split {
+			continue
+		}
 		w := per[sd.id]
 		e.Check()
 		if len(w) != len(sd.issued) {
@@ -439,6 +517,10 @@ func wirePayload(g G) string {
 		}
 	}
 	return string(b)
+}
+
+func splitEventName(ev int) string {
+	return fmt.Sprintf("%s of call %d", []string{"the first piece", "the last piece", "the short line after"}[ev%3], ev/3)
 }
 
 func clip(s string) string {
